@@ -43,7 +43,7 @@ def gen_cases(tier, seed):
         r = random.Random(env.seed_for(s, "descriptor"))  # independent of the stream run_case derives from the same seed
         d = {"seed": s, "mode": r.choice(["plain", "plain", "registry"]), "n": r.randint(2, 14 if tier == "quick" else 30),
              "W": r.choice([1, 2, 4, 8]), "sched": r.choice(["default", "random", "random"]),
-             "observer": r.choice(["none", "rec", "console", "rec", "html_failing"]), "tier": tier}
+             "observer": r.choice(["none", "rec", "console", "rec", "html_failing", "swallowing_member"]), "tier": tier}
         if d["mode"] == "plain" and r.random() < 0.4:
             # calls that raise, before or after the interrupt: KeyboardInterrupt must still be what run raises, and nothing may hang
             d["faults"] = {"p": r.choice([0.15, 0.3, 0.6]), "kinds": r.choice([["exc"], ["exc", "value"], ["exc", "base"]])}
@@ -285,6 +285,15 @@ def one_interrupt(desc, build, k, position):
         import uberjob.progress as up
 
         progress = up.Progress(lambda: up.ConsoleProgressObserver(initial_update_delay=0.02, min_update_interval=0.05, max_update_interval=0.1))
+    elif desc["observer"] == "swallowing_member":
+        # a composite in which one user-written member's __exit__ returns True: a member of a composite cannot make the interrupt vanish
+        class Swallow(recobserver.RecObserver):
+            def __exit__(self_, *a):
+                recobserver.RecObserver.__exit__(self_, *a)
+                return True
+
+        obs = recobserver.RecObserver()
+        progress = (obs.progress(), Swallow("swallow").progress())
     elif desc["observer"] == "html_failing":
         import uberjob.progress as up
 
